@@ -264,8 +264,8 @@ func main() {
 			{Name: "multi", Tiers: "quick", Depth: 2, NewModel: func() hist.Model { return newModel(multiOps(pool, false)) }},
 			{Name: "load", Tiers: "quick", Depth: 3, NewModel: load},
 
-			{Name: "ranges/3rules@5", Tiers: "thorough", Depth: 5, NewModel: rangesScope(aba, vll)},
-			{Name: "ranges/4rules@4", Tiers: "thorough", Depth: 4, NewModel: rangesScope(abab, vl)},
+			{Name: "ranges/2rules@5", Tiers: "thorough", Depth: 5, NewModel: rangesScope(ab, vll)},
+			{Name: "ranges/3rules@4", Tiers: "thorough", Depth: 4, NewModel: rangesScope(aba, vll)},
 			{Name: "override@3", Tiers: "thorough", Depth: 3, NewModel: overrideScope(aba, few, []int{1, 2}, false)},
 			{Name: "override/allranges@3", Tiers: "thorough", Depth: 3, NewModel: overrideScope([][2]string{{"g1", "a"}, {"g2", "a"}}, allRanges, []int{1}, false)},
 			{Name: "override/4keys@3", Tiers: "thorough", Depth: 3, NewModel: overrideScope(abab, few[:3], []int{1}, false)},
